@@ -306,6 +306,8 @@ func Tokenize(source string) ([]Token, error) {
 					rest = tail
 				}
 				str = string(decoded)
+			} else {
+				str = strings.ReplaceAll(str, "\r", "") // Like in Go, carriage returns are discarded from raw strings.
 			}
 			token = newToken(str, STRING_LITERAL, ogRow, ogColumn)
 			i = end + 1
